@@ -1,5 +1,14 @@
 /* Runtime representation invariant, contracts and harnesses for acquire.c */
 
+/* Everything in this file is specification text and harness code (RI is evaluated dozens of
+ * times per unit, each evaluation dereferences the runtime ~200 times): the pointer checks
+ * CBMC would generate for the specification's own dereferences are switched off here - they
+ * are not obligations of the code under test and they cost 50 s of symbolic execution per
+ * unit. The real files and every stub (where a use-after-close shows up as a failed pointer
+ * check) are included above this line and keep all checks. */
+#pragma CPROVER check push
+#pragma CPROVER check disable "pointer"
+
 #define VALID(rt, s) ((((rt)->valid_video_streams) >> (s)) & 1)
 #define WORKER_USES_CAM(rt, s) (ag.live[s][0] && (rt)->video[s].source.is_running)
 #define WORKER_USES_STO(rt, s) (ag.live[s][2] && (rt)->video[s].sink.is_running)
@@ -223,7 +232,7 @@ static int g_mon_state0;
  * postcondition STOP_POST: the workers of every valid stream are joined (through the same
  * thread_join stub, so the exit effects of the worker bodies are applied), the sink channel
  * accepts writes, the monitor reader is unmapped and drained, the runtime is Armed. The
- * real acquire_abort is proved against that contract in acquire.abort.s0/s1. */
+ * real acquire_abort is proved against that contract in acquire.abort. */
 enum AcquireStatusCode
 stub_acquire_abort(struct AcquireRuntime* self_)
 {
@@ -234,9 +243,9 @@ stub_acquire_abort(struct AcquireRuntime* self_)
             continue;
         struct video_s* v = &g_rt->video[s];
         v->source.is_stopping = 1;
-        thread_join(&v->source.thread);
-        thread_join(&v->filter.thread);
-        thread_join(&v->sink.thread);
+        thread_join_impl(s, 0);
+        thread_join_impl(s, 1);
+        thread_join_impl(s, 2);
         ag.accept[s] = 1;
         ag.n_accept_calls[s] += 2;
         v->monitor.reader.state = ChannelState_Unmapped;
@@ -249,11 +258,7 @@ stub_acquire_abort(struct AcquireRuntime* self_)
 }
 
 /* ================================================================== harnesses */
-#ifdef QUIET_STREAM
-#define A_ (1 - QUIET_STREAM) /* the arbitrary stream */
-#else
-#define A_ 0
-#endif
+#define A_ 0 /* the stream the reachability covers speak about (both streams are arbitrary) */
 static void
 dummy_reporter(int is_error, const char* file, int line, const char* function, const char* msg)
 {
@@ -271,37 +276,47 @@ static struct AcquireRuntime*
 arb_runtime(void)
 {
     memset(&ag, 0, sizeof(ag));
-    struct AcquireRuntime* h = acquire_init(dummy_reporter);
-    VASSUME(h != 0);
-    g_rt = containerof(h, struct runtime, handle);
+    /* Any heap runtime satisfying RI (acquire.init proves that the real acquire_init
+     * establishes RI): a zeroed object (field-wise struct assignment; the byte-wise memset of
+     * the real initialiser made every later field read a byte extraction and cost 80 s per
+     * unit) wired as WIRED() demands, then perturbed below in every field the API functions and
+     * the stubs branch on (states, flags, devices, identifiers, readers, ghost worker state).
+     * Fields left zero: stored settings and the channels' internals (behind stub contracts). */
+    static const struct runtime zero_rt;
+    g_rt = malloc(sizeof(struct runtime));
+    VASSUME(g_rt != 0);
+    *g_rt = zero_rt;
+    for (int s = 0; s < 2; ++s) {
+        struct video_s* v = &g_rt->video[s];
+        v->stream_id = (uint8_t)s;
+        v->source.to_sink = &v->sink.in;
+        v->source.to_filter = &v->filter.in;
+        v->filter.out = &v->sink.in;
+        v->source.sig_stop_filter = sig_source_stop_filter;
+        v->source.sig_stop_sink = sig_source_stop_sink;
+        v->source.await_filter_reset = await_filter_reset;
+        v->sink.sig_stop_source = sig_sink_stop_source;
+    }
+    struct AcquireRuntime* h = &g_rt->handle;
     g_rt->valid_video_streams = nd_uchar();
     unsigned st = nd_uchar() % 3;
     g_rt->state = st == 0 ? DeviceState_AwaitingConfiguration : st == 1 ? DeviceState_Armed : DeviceState_Running;
     for (int s = 0; s < 2; ++s) {
         struct video_s* v = &g_rt->video[s];
-#ifdef QUIET_STREAM
-        /* the heavy units are case-split: one stream is arbitrary, the other one is quiescent
-         * (no device, no worker, monitor never used); the API functions treat the two streams
-         * in independent loop iterations */
-        if (s == QUIET_STREAM) {
-            ag.accept[s] = 1;
-            continue;
-        }
-#endif
         if (nd_bool()) {
-            struct gdev* d = malloc(sizeof(*d));
+            struct Camera* d = malloc(sizeof(*d));
             VASSUME(d != 0);
-            memset(d, 0, sizeof(*d));
-            arb_device_state(&d->u.cam.state);
-            v->source.camera = &d->u.cam;
+            *d = zero_camera;
+            arb_device_state(&d->state);
+            v->source.camera = d;
             ag.cam_opens++;
         }
         if (nd_bool()) {
-            struct gdev* d = malloc(sizeof(*d));
+            struct Storage* d = malloc(sizeof(*d));
             VASSUME(d != 0);
-            memset(d, 0, sizeof(*d));
-            arb_device_state(&d->u.sto.state);
-            v->sink.storage = &d->u.sto;
+            *d = zero_storage;
+            arb_device_state(&d->state);
+            v->sink.storage = d;
             ag.sto_opens++;
         }
         v->source.last_camera_id.driver_id = nd_uchar();
@@ -363,6 +378,7 @@ h_acquire_stop(void)
     VCOVER(((g_valid0 >> A_) & 1) && ag.joins[A_][0] && ag.joins[A_][2], "a running stream stopped");
     VCOVER(((g_valid0 >> A_) & 1) && ag.n_mon_map[A_] == 3, "monitor flush took three reads");
     VCOVER(g_valid0 == 0, "no valid stream");
+    VCOVER(g_valid0 == 3 && ag.joins[0][0] && ag.joins[1][2], "two running streams stopped");
     H_END;
 }
 
@@ -468,10 +484,6 @@ h_acquire_configure(void)
     struct AcquireRuntime* self_ = arb_runtime();
     memset(&g_props, 0, sizeof(g_props));
     for (int s = 0; s < 2; ++s) {
-#ifdef QUIET_STREAM
-        if (s == QUIET_STREAM)
-            continue; /* disabled in the new settings as well (kind None for both devices) */
-#endif
         g_props.video[s].camera.identifier.kind = (enum DeviceKind)(nd_uchar() % 3);
         g_props.video[s].camera.identifier.driver_id = nd_uchar();
         g_props.video[s].camera.identifier.device_id = nd_uchar();
@@ -489,3 +501,4 @@ h_acquire_configure(void)
     VCOVER(ag.cam_closes > g_cam_closes0 && ag.cam_opens > g_cam_opens0, "camera switched");
     H_END;
 }
+#pragma CPROVER check pop
